@@ -71,7 +71,7 @@ if [ "$ID" = C08 ]; then
 fi
 build .build/vcheck.$$ ./cmd/vcheck
 [ "$ID" = C19 ] && build .build/crashchild ./cmd/crashchild
-case "$ID" in C01|C03|C13|C05|C06|C07|C09|C10|C11|C12|C14|C16|C17|C18|C20) buildyield;; esac
+case "$ID" in C01|C02|C04|C03|C13|C05|C06|C07|C09|C10|C11|C12|C14|C16|C17|C18|C20) buildyield;; esac
 if [ "$ID" = C02 ] || [ "$ID" = C03 ]; then   # the pairing-handler scheduler binary (overlay build), next to vcheck
   SC=.scratch/pair.$$; mkdir -p $SC; overlay $SC/ov
   build .build/vsched-pair ./cmd/vsched -overlay "$SC/ov/overlay.json"; rm -rf $SC
